@@ -41,6 +41,9 @@ use crate::{common::*, rfc};
 pub enum Kind {
     Text,
     Lcg,
+    /// pseudo-random bytes over a 100-symbol alphabet: compresses by only ~15 %, so along the coded
+    /// wire the decoded prefix grows by one or two bytes per wire byte (request side only)
+    Mixed,
 }
 
 impl Kind {
@@ -48,6 +51,7 @@ impl Kind {
         match self {
             Kind::Text => text_bytes(n),
             Kind::Lcg => lcg_bytes(n, n as u64 + 1),
+            Kind::Mixed => lcg_bytes(n, n as u64 + 3).into_iter().map(|b| b' ' + b % 100).collect(),
         }
     }
 }
@@ -1067,8 +1071,11 @@ pub fn enumerate(tier: &str) -> Vec<Case13> {
     };
     for coding in Coding::ALL {
         for &len in &req_lens {
-            for kind in [Kind::Text, Kind::Lcg] {
+            for kind in [Kind::Text, Kind::Lcg, Kind::Mixed] {
                 if len == 0 && kind == Kind::Lcg {
+                    continue;
+                }
+                if kind == Kind::Mixed && (coding == Coding::Identity || ![1024, 2049, 4096].contains(&len)) {
                     continue;
                 }
                 let wire = coding.encode(&kind.bytes(len));
@@ -1090,7 +1097,11 @@ pub fn enumerate(tier: &str) -> Vec<Case13> {
                     if m >= 2 {
                         push(Chunking::Lens(vec![m / 2, 0, m - m / 2]), "empty-middle".into(), &mut chs);
                     }
-                    if m <= 64 || thorough && m <= 300 {
+                    // every single cut: always for short wires; for compressible bodies up to a
+                    // few KiB too (the decoded prefix grows in small steps along the wire, so
+                    // every relation between "decoded so far" and the declared length occurs)
+                    let all_cuts = m <= 64 || thorough && m <= 300 || kind != Kind::Lcg && coding != Coding::Identity && (m <= 4200 || thorough && m <= 6000);
+                    if all_cuts {
                         for p in 1..m {
                             push(Chunking::cuts(m, &[p]), format!("cut@{p}"), &mut chs);
                         }
@@ -1108,6 +1119,9 @@ pub fn enumerate(tier: &str) -> Vec<Case13> {
                 }
                 for (chunking, shape) in chs {
                     for pending in [false, true] {
+                        if pending && m > 300 && shape.starts_with("cut@") && !["cut@1", "cut@10"].contains(&shape.as_str()) && shape != format!("cut@{}", m / 2) && shape != format!("cut@{}", m - 8) && shape != format!("cut@{}", m - 1) {
+                            continue;
+                        }
                         for via in [Via::Decompress, Via::BytesExtractor] {
                             let mut headers: Vec<Option<String>> = match coding {
                                 Coding::Identity => vec![None, Some("identity".into())],
